@@ -18,18 +18,6 @@ Open Scope Z_scope.
 (* one comma-separated, stripped part of a foreground string *)
 Inductive part := PSet (s : setting) | PCol (d : desc).
 
-(* outcome of the constructor: the exception class and, for AttrSpecError, which raise statement:
-   1 setting specified more than once, 2 unrecognised colour in foreground, 3 more than one colour,
-   4 unrecognised colour in background, 5 requires more colours than specified, 6 invalid number of
-   colours; 0 = an exception that escaped from a lower-level function *)
-Inductive res (A : Type) := ROk (a : A) | RErr (e : errkind) (why : Z).
-Arguments ROk {A} a.
-Arguments RErr {A} e why.
-Definition lift {A} (r : result A) : res A := match r with Ok a => ROk a | Err e => RErr e 0 end.
-Definition rbind {A B} (r : res A) (f : A -> res B) : res B :=
-  match r with ROk a => f a | RErr e w => RErr e w end.
-
-Definition b2z (b : bool) : Z := if b then 1 else 0.
 Definition TRUE_DEPTH : Z := 16777216.     (* 2**24 *)
 
 (* colors not in {1, 16, 88, 256, 2**24} *)
@@ -182,9 +170,6 @@ Definition parts_of_foreground (f : desc * list bool) : list part :=
    _BASIC_COLORS.index(part) and the string-level parsers / describers of Gen/colours_gen.v
    (translated from the source without any lexical abstraction). *)
 Definition S_default : str := [100; 101; 102; 97; 117; 108; 116].                       (* "default" *)
-Fixpoint find_setting (l : list (str * setting)) (p : str) : option setting :=
-  match l with [] => None | (n, s) :: r => if str_eqb n p then Some s else find_setting r p end.
-
 (* the colour branch of __set_foreground / __set_background on a string *)
 Definition parse_part_s (v : Z) (p : str) (f_basic f_high f_true : Z) : result (option Z * Z) :=
   if str_eqb p [] || str_eqb p S_default then Ok (Some 0, 0)
@@ -266,7 +251,6 @@ Definition S_standout : str := [44; 115; 116; 97; 110; 100; 111; 117; 116].
 Definition S_blink : str := [44; 98; 108; 105; 110; 107].
 Definition S_underline : str := [44; 117; 110; 100; 101; 114; 108; 105; 110; 101].
 Definition S_strikethrough : str := [44; 115; 116; 114; 105; 107; 101; 116; 104; 114; 111; 117; 103; 104].
-Definition times (s : str) (b : bool) : str := if b then s else [].
 Definition settings_suffix (v : Z) : str :=
   times S_bold (attr_bold v) ++ times S_italics (attr_italics v) ++ times S_standout (attr_standout v)
   ++ times S_blink (attr_blink v) ++ times S_underline (attr_underline v)
@@ -347,15 +331,22 @@ Definition run_desc_case (l : list Z) : list Z :=
   | _ => [9]
   end.
 
-(* string level reply: 0 errcode why | 1 value colors <fg> <bg> <rgb> with <fg>,<bg> = 0 errcode | 1 len cp* *)
+(* string level reply, computed with the functions TRANSLATED from the source (Gen/colours_gen.v:
+   attrspec_init_gen, foreground_gen, background_gen, get_rgb_values_gen, copy_modified_gen); the
+   hand-written string model above is proved equal to them (Proofs/ColoursGenMeth.v) and serves the proofs.
+     0 errcode why | 1 value colors <fg> <bg> <rgb> <copy>
+     <fg>,<bg> = 0 errcode | 1 len cp*     <rgb> = 0 errcode | 1 (0 | 1 x){6}     <copy> = 0 errcode why | 1 value *)
 Definition enc_str_res (r : result str) : list Z :=
   match r with Ok s => 1 :: enc_list s | Err e => [0; errcode e] end.
+Definition enc_res_value (r : res Z) : list Z :=
+  match r with ROk v => [1; v] | RErr e w => [0; errcode e; w] end.
 Definition describe_wire_s (v : Z) : list Z :=
-  [1; v; attr_colors v] ++ enc_str_res (foreground_s v) ++ enc_str_res (background_s v)
-  ++ match get_rgb_values v with
-     | Ok (f, b) => 1 :: enc_triple f ++ enc_triple b
+  [1; v; attr_colors v] ++ enc_str_res (foreground_gen v) ++ enc_str_res (background_gen v)
+  ++ match get_rgb_values_gen v with
+     | Ok l => 1 :: flat_map enc_oz l
      | Err e => [0; errcode e]
-     end.
+     end
+  ++ enc_res_value (copy_modified_gen v None None None).
 Definition run_str_case (l : list Z) : list Z :=
   match l with
   | colors :: r =>
@@ -363,7 +354,7 @@ Definition run_str_case (l : list Z) : list Z :=
       | Some (fg, r') =>
           match dec_list r' with
           | Some (bg, []) =>
-              match attrspec_new_s fg bg colors with
+              match attrspec_init_gen fg bg colors with
               | RErr e w => [0; errcode e; w]
               | ROk v => describe_wire_s v
               end
